@@ -46,7 +46,15 @@ RULE = ("Hypothesis-generated records (nested JSON, unicode incl. astral/U+2028,
         "CI on, identity/reflection stream, >=1 volatile field present; stager = >=2 files and >=1 successful "
         "back-pressure flush (sort: >=3 records with a key tie on (turn, stage, slice)); compaction = >=2 records "
         "replacing old content; rotation = >=2 effective rotations and a pre-existing generation; crash = "
-        "kill point inside a cascade of >=2 steps. Distinct = digest of the whole case.")
+        "kill point inside a cascade of >=2 steps. Distinct = digest of the whole case. "
+        "Hardening dimensions (each with its own label): CI spellings True/TRUE/false/0; the same record appended/"
+        "captured/staged/rewritten several times; unserialisable records offered to the writers and to a rewrite; "
+        "volatile field NAMES one level down; turn/slice/seq values across digit boundaries (9|10, 99|100) and one "
+        "string turn id per batch; turn-level fields and 150-1200 char blobs in staged payloads with limits at exact "
+        "fill levels; writers that capture in their own LogMux / stage in their own LogStager among the concurrent "
+        "appenders, lines > 1 MiB; 1000+ records per rewrite, appends after a rewrite and after rotations through "
+        "the engine's own writer in the same process; rotation with 9..101 backups over 8..13 (+20s, +100s) "
+        "pre-existing generations.")
 ASSUMPTIONS = [
     "records are JSON-shaped dicts (str keys, finite floats, no lone surrogates): other values are outside "
     "'records appended to a JSONL stream'",
@@ -66,6 +74,15 @@ ASSUMPTIONS = [
     "crash model: the process dies between two Python-visible os.remove/os.replace/os.rename/os.unlink calls "
     "(fork + os._exit); concurrent-writer schedules are sampled, their oracle is schedule independent",
     "local POSIX file system with atomic O_APPEND writes and atomic rename (what the sandbox provides)",
+    "CI switch: 'true' in any letter case is on (every reader of the flag in the repo lower-cases it), anything else "
+    "incl. 'false'/'0' is off",
+    "a record json/utf-8 cannot serialise is not 'a record appended': the writer may raise TypeError/ValueError (it "
+    "does) or write one valid line; either way the stream stays well-formed, the records around it stay intact, and "
+    "a rewrite that raises leaves the old file",
+    "one turn id per staged batch may be a string (`int | str` in _clone_ctx_for_agent/_sort_turn_buffers, '-' is "
+    "core.py's default); mixed int/str ids inside one stager are not generated (no caller produces them)",
+    "LogMux capture and LogStager state are per thread/context (ContextVar): a writer thread's own capture or staging "
+    "must not see or disturb other threads' appends",
 ]
 
 BACKPRESSURE = "LOG_STAGING_BACKPRESSURE"
@@ -182,6 +199,17 @@ _json = st.one_of(_leaf, _leaf, _flat, st.sampled_from(_NESTED_POOL),
                   st.dictionaries(_keys, st.one_of(_leaf, _flat), max_size=2))
 
 
+_NESTED_VOLATILE = st.dictionaries(
+    st.sampled_from(["ms", "now", "durations_ms", "yielded", "slice_idx", "k"]),
+    st.sampled_from([1.25, 7, 0, None, False, True, "2025-01-01T00:00:00+00:00", {"t1": 1.5, "ms": 2.0}]),
+    min_size=1, max_size=4)
+
+
+def _has_nested_volatile(rec):
+    return any(isinstance(v, dict) and any(k in v for k in ("ms", "now", "durations_ms", "yielded", "slice_idx"))
+               for v in rec.values())
+
+
 @st.composite
 def records(draw, stream=None, big=False, volatile=True):
     """A JSON-shaped dict; volatile field names are mixed in at arbitrary key positions."""
@@ -194,18 +222,22 @@ def records(draw, stream=None, big=False, volatile=True):
         if draw(st.booleans()):
             vol.append(("ms", draw(st.one_of(st.floats(0, 1e6), st.integers(0, 999), st.just(0.0), st.none()))))
         if draw(st.booleans()):
-            vol.append(("now", draw(st.sampled_from(["2025-01-01T00:00:00+00:00", 1700000000000, None, ""]))))
+            vol.append(("now", draw(st.sampled_from(["2025-01-01T00:00:00+00:00", 1700000000000, None, "", 0]))))
         if turnlike and draw(st.booleans()):
             vol.append(("durations_ms", draw(st.one_of(
                 st.dictionaries(st.sampled_from(["t1", "t2", "t3", "t4", "apply", "total", "é"]),
-                                st.one_of(st.floats(0, 1e4), st.integers(0, 50)), max_size=5),
-                st.sampled_from([None, 3.5, [1.0, 2.0]])))))
+                                st.one_of(st.floats(0, 1e4), st.integers(0, 50), st.none(),
+                                          st.sampled_from([{"ms": 2.5}, [1.5]])), max_size=5),
+                st.sampled_from([None, 3.5, [1.0, 2.0], {}])))))
         if turnlike and draw(st.booleans()):
             y = draw(st.sampled_from([True, False, None, "absent"]))
             if y != "absent":
                 vol.append(("yielded", y))
             if draw(st.booleans()):
                 vol.append(("slice_idx", draw(st.one_of(st.integers(0, 9), st.none()))))
+        if draw(st.integers(0, 3)) == 0:
+            # volatile NAMES one level down (stage metric blocks carry their own timings): never to be touched
+            vol.append((draw(st.sampled_from(["metrics", "t2", "info", "ctx"])), draw(_NESTED_VOLATILE)))
         for kv in vol:
             pairs.insert(draw(st.integers(0, len(pairs))), kv)
     return dict(pairs)
@@ -230,7 +262,11 @@ def _classes(rec):
 # 1a. sequential append through all entry points (+ mux)
 # ================================================================================================
 
-VIAS = ["io", "unbuf", "orch", "wob"]
+VIAS = ["io", "unbuf", "orch", "wob", "io_fg", "orch_unbuf", "orch_raw"]
+MUX_VIAS = ["io", "orch", "wob", "io_fg", "orch_raw"]   # entry points a LogMux captures
+# CI spellings: the documented switch is CI=true (compared case-insensitively by every reader of the flag in the
+# repo); anything else, also "false"/"0", leaves records alone
+CI_POOL = ["true", "true", "true", "true", None, "", "True", "TRUE", "false", "0"]
 
 
 def _writers():
@@ -238,24 +274,60 @@ def _writers():
     from clematis.engine.orchestrator import logging as ologging
     from clematis.engine.util import logmux
     return {"io": iolog.append_jsonl, "unbuf": iolog._append_jsonl_unbuffered, "orch": ologging.append_jsonl,
-            "wob": logmux.write_or_buffer}
+            "wob": logmux.write_or_buffer,
+            "io_fg": lambda fn, r: iolog.append_jsonl(fn, r, feature_guard=True),
+            "orch_unbuf": ologging._append_unbuffered, "orch_raw": ologging._append_jsonl}
+
+
+POISON_KINDS = ["object", "set", "bytes", "surrogate", "circular", "tuple-key"]
+
+
+def _poison_record(kind, pad):
+    """A dict json cannot serialise (or utf-8 cannot encode), with `pad` serialisable characters in front of the
+    offending value so that a writer streaming into the file has already emitted something."""
+    if kind == "object":
+        bad = object()
+    elif kind == "set":
+        bad = {1, 2}
+    elif kind == "bytes":
+        bad = b"x"
+    elif kind == "surrogate":
+        bad = "a\ud800b"
+    elif kind == "circular":
+        bad = []
+        bad.append(bad)
+    else:
+        bad = {(1, 2): 3}
+    return {"a": 1, "pad": "p" * pad, "nest": {"ok": [1, 2, "é"], "bad": bad}, "z": 2}
 
 
 @st.composite
 def append_cases(draw):
-    ci = draw(st.sampled_from(["true", "true", None, ""]))
+    ci = draw(st.sampled_from(["true", "true", None, ""] + CI_POOL[6:]))
     mux = draw(st.integers(0, 3)) == 3  # shrinks towards the direct path
     n = draw(st.integers(1, 6))
     big_at = draw(st.integers(0, n - 1)) if draw(st.integers(0, 6)) == 6 else -1  # shrinks towards "no big value"
     ops = []
     for i in range(n):
+        via = draw(st.sampled_from(MUX_VIAS if mux else VIAS))
+        if ops and draw(st.integers(0, 5)) == 5:
+            # the very same record again (same stream, any entry point): two appends are two lines
+            prev = ops[draw(st.integers(0, len(ops) - 1))]
+            ops.append({"via": via, "stream": prev["stream"], "rec": copy.deepcopy(prev["rec"]), "dup": True})
+            continue
         stream = draw(st.one_of(st.sampled_from(ALL_STREAMS), st.sampled_from(IDENT),
                                 st.sampled_from(["sub/t1.jsonl", "sub/turn.jsonl", "sub/x.jsonl"])))
-        via = draw(st.sampled_from(["io", "orch", "wob"] if mux else VIAS))
         ops.append({"via": via, "stream": stream,
                     "rec": draw(records(stream=os.path.basename(stream), big=(i == big_at)))})
+    poison = None
+    if not mux and draw(st.integers(0, 4)) == 4:
+        # a record that cannot be serialised is offered between two ops: whatever the writer does with it, the
+        # stream must stay well-formed and the records around it intact
+        poison = {"at": draw(st.integers(0, n)), "stream": draw(st.sampled_from([o["stream"] for o in ops])),
+                  "kind": draw(st.sampled_from(POISON_KINDS)), "pad": draw(st.sampled_from([0, 3, 9000, 70000])),
+                  "via": draw(st.sampled_from(["io", "unbuf", "orch", "orch_unbuf"]))}
     return {"ci": ci, "mux": mux, "capture": draw(st.sampled_from(["use_mux", "begin_end"])) if mux else None,
-            "ops": ops}
+            "ops": ops, "poison": poison}
 
 
 def check_append(case, rec=None):
@@ -263,6 +335,8 @@ def check_append(case, rec=None):
     W = _writers()
     ci_on = lognorm.ci_active(case["ci"])
     ops = case["ops"]
+    poison = case.get("poison") if not case["mux"] else None
+    poison_raised = None
     snap = copy.deepcopy([o["rec"] for o in ops])
     with sandbox(case["ci"]) as logs:
         if case["mux"]:
@@ -289,35 +363,50 @@ def check_append(case, rec=None):
                                 case, "mux-capture")
             logmux.flush(pairs)
         else:
-            for o in ops:
-                W[o["via"]](o["stream"], o["rec"])
+            for i, o in enumerate(ops + [None]):
+                if poison is not None and poison["at"] == i:
+                    try:
+                        W[poison["via"]](poison["stream"], _poison_record(poison["kind"], poison["pad"]))
+                        poison_raised = False
+                    except (TypeError, ValueError):  # UnicodeEncodeError is a ValueError
+                        poison_raised = True
+                if o is not None:
+                    W[o["via"]](o["stream"], o["rec"])
         tree = read_tree(logs)
         # byte parity between the entry points (docs/m9 PR71: the unbuffered writer mirrors the production writer)
         o0 = ops[0]
-        pname = os.path.join("sub", "parity_" + os.path.basename(o0["stream"]))
-        ppath = os.path.join(logs, pname)
         par = {}
         for v in VIAS:
             # same basename rules do not apply to "parity_*": compare the raw serialisation of the already
-            # normalised record through every entry point
+            # normalised record through every entry point (one file per entry point: nothing is deleted under
+            # the writer's feet)
+            pname = os.path.join("sub", f"parity_{v}_" + os.path.basename(o0["stream"]))
             W[v](pname, lognorm.ref_normalize(os.path.basename(o0["stream"]), o0["rec"], ci_on))
-            with open(ppath, "rb") as f:
+            with open(os.path.join(logs, pname), "rb") as f:
                 par[v] = f.read()
-            os.remove(ppath)
     for i, (o, s) in enumerate(zip(ops, snap)):
         if not lognorm.strict_eq(o["rec"], s):
             raise Violation(f"append mutated the caller's record #{i} ({o['via']}, {o['stream']})", case,
                             "append-mutates-input")
     expect = {}
-    for o in ops:
-        expect.setdefault(o["stream"], []).append(lognorm.ref_normalize(os.path.basename(o["stream"]), o["rec"], ci_on))
+    ANY = object()  # the line a writer produced for the unserialisable record, if it chose to write one
+    for i, o in enumerate(ops + [None]):
+        if poison is not None and poison["at"] == i and poison_raised is False:
+            expect.setdefault(poison["stream"], []).append(ANY)
+        if o is not None:
+            expect.setdefault(o["stream"], []).append(
+                lognorm.ref_normalize(os.path.basename(o["stream"]), o["rec"], ci_on))
     if sorted(tree) != sorted(expect):
         raise Violation(f"files on disk {sorted(tree)} != streams appended to {sorted(expect)}", case, "append-files")
     for name, want in expect.items():
         got = parse_lines(tree[name], case, f"append {name}")
         if len(got) != len(want):
-            raise Violation(f"{name}: {len(want)} records appended, {len(got)} lines on disk", case, "append-count")
+            raise Violation(f"{name}: {len(want)} records appended, {len(got)} lines on disk"
+                            + (f" (an unserialisable record was offered: raised={poison_raised})" if poison else ""),
+                            case, "append-count")
         for i, (g, w) in enumerate(zip(got, want)):
+            if w is ANY:
+                continue
             if not lognorm.strict_eq(g, w):
                 raise Violation(f"{name} line {i} parses to {_shorten(g)} but the (normalised) record is {_shorten(w)}",
                                 case, "append-roundtrip")
@@ -330,7 +419,9 @@ def check_append(case, rec=None):
             cls |= _classes(o["rec"])
         labels = sorted(cls) + [f"ci={case['ci']}", ("mux:" + str(case.get("capture"))) if case["mux"] else "direct"] + \
             sorted({"via=" + o["via"] for o in ops}) + \
-            (["identity-stream"] if any(os.path.basename(o["stream"]) in IDENT for o in ops) else [])
+            (["identity-stream"] if any(os.path.basename(o["stream"]) in IDENT for o in ops) else []) + \
+            (["duplicate-record"] if any(o.get("dup") for o in ops) else []) + \
+            ([f"poison:{poison['kind']}", "poison:raised" if poison_raised else "poison:written"] if poison else [])
         nt = bool(cls)
         rec.case(nontrivial=nt, dig=digest(case) if nt else None, labels=labels,
                  sample={"ci": case["ci"], "mux": case["mux"],
@@ -357,8 +448,10 @@ def _cc_record(spec, wid, seq):
         n = r.randint(8100, 8300)          # around the default 8 KB io buffer
     elif x < 0.90:
         n = r.randint(65400, 65700)        # around the 64 KB pipe size
-    else:
+    elif x < 0.992 or not spec.get("huge"):
         n = r.randint(70_000, 200_000)
+    else:
+        n = r.randint(1_050_000, 2_300_000)  # beyond 1 MiB and 2 MiB: a writer that chunks its write(2) calls
     if x >= 0.74:
         ch = "a"
     else:
@@ -367,13 +460,76 @@ def _cc_record(spec, wid, seq):
     return spec["files"][fi], {"w": wid, "seq": seq, "ms": 1.5, "pad": ch * n}
 
 
+def _cc_kind(spec, wid):
+    """plain: every record straight through an entry point; mux: the writer captures small batches in ITS OWN
+    LogMux and flushes them; staged: the writer stages small batches in ITS OWN LogStager and flushes the sorted
+    drain (capture and staging are per-context: other threads' appends are none of their business)."""
+    if not spec.get("kinds"):
+        return "plain"
+    return random.Random(f"{spec['sseed']}|kind|{wid}").choice(["plain", "plain", "mux", "staged", "staged"])
+
+
+def _cc_pause(x):
+    import time
+    time.sleep(0.0003)  # schedule perturbation only: no oracle depends on it
+    return x
+
+
 def _cc_writer(spec, wid, errs):
+    from clematis.engine.util import logmux, io_logging as IOL
     W = _writers()
-    via = ["io", "unbuf", "orch"][wid % 3]
+    kind = _cc_kind(spec, wid)
+    r = random.Random(f"{spec['sseed']}|batch|{wid}")
     try:
-        for seq in range(spec["recs"]):
-            fn, r = _cc_record(spec, wid, seq)
-            W[via](fn, r)
+        if kind == "plain":
+            via = ["io", "unbuf", "orch", "wob", "orch_unbuf"][wid % 5]
+            for seq in range(spec["recs"]):
+                fn, rec_ = _cc_record(spec, wid, seq)
+                W[via](fn, rec_)
+            return
+        seq = 0
+        while seq < spec["recs"]:
+            # the records are computed INSIDE the capture/staging window, with a pause after each (a compute phase
+            # that logs as it goes): windows of different threads overlap each other and other writers' appends
+            batch = (_cc_pause(_cc_record(spec, wid, q)) for q in range(seq, min(spec["recs"], seq + r.randint(1, 4))))
+            if kind == "mux":
+                via = ["io", "wob", "orch"][wid % 3]
+                mux = logmux.LogMux()
+                with logmux.use_mux(mux):
+                    for fn, rec_ in batch:
+                        W[via](fn, rec_)
+                        seq += 1
+                logmux.flush(mux.dump())
+                continue
+            stg = IOL.enable_staging(byte_limit=r.choice([200, 9000, 1 << 25]))
+            try:
+                for fn, rec_ in batch:
+                    seq += 1
+                    try:
+                        key = IOL.default_key_for(file_path=fn, turn_id=1, slice_idx=0)
+                    except RuntimeError as e:
+                        errs.append(f"VIOLATION: writer {wid} enabled staging in its own context, yet "
+                                    f"default_key_for raised {e!r} while other threads stage/unstage")
+                        return
+                    try:
+                        stg.stage(fn, key, rec_)
+                    except RuntimeError as e:
+                        if str(e) != BACKPRESSURE:
+                            raise
+                        for sr in stg.drain_sorted():
+                            W["orch_unbuf"](sr.file_path, sr.payload)
+                        try:
+                            stg.stage(fn, key, rec_)
+                        except RuntimeError as e2:
+                            # limit below one record (finding stager-limit-below-record, judged by stager_protocol,
+                            # not here): the buffer is empty, so writing the record now keeps the order
+                            if str(e2) != BACKPRESSURE:
+                                raise
+                            W["orch_unbuf"](fn, rec_)
+                for sr in stg.drain_sorted():
+                    W["orch_unbuf"](sr.file_path, sr.payload)
+            finally:
+                IOL.disable_staging()
     except BaseException as e:  # reported to the parent as a harness problem
         errs.append(f"writer {wid}: {type(e).__name__}: {e}")
 
@@ -437,11 +593,14 @@ def run_round(spec, rec=None):
                 if fn.startswith("err-"):
                     with open(os.path.join(errdir, fn)) as f:
                         msgs.append(f.read())
+            viol = [m for m in msgs if "VIOLATION: " in m]
+            if viol:
+                raise Violation("; ".join(viol)[:600], spec, "staging-context-shared")
             raise RuntimeError(f"concurrent writer failed (exit codes {codes}): {msgs}")
         tree = read_tree(logs)
     total = 0
     seen = set()
-    nbig = 0
+    nbig = nhuge = 0
     for name in sorted(tree):
         got = parse_lines(tree[name], spec, f"concurrent {name}")
         last = {}
@@ -463,6 +622,8 @@ def run_round(spec, rec=None):
             last[g["w"]] = g["seq"]
             if len(g["pad"]) >= 65400:
                 nbig += 1
+            if len(g["pad"]) > (1 << 20):
+                nhuge += 1
         total += len(got)
     if total != nwriters * R:
         raise Violation(f"{nwriters * R} records appended by {nwriters} writers, {total} lines on disk", spec,
@@ -470,10 +631,12 @@ def run_round(spec, rec=None):
     if rec is not None:
         nt = nwriters >= 2 and nbig >= 1
         rec.case(nontrivial=nt, dig=digest(spec), labels=[f"procs={P}", f"threads={T}", f"parent_threads={PT}",
-                                                           f"files={len(spec['files'])}"] + (["has>64K"] if nbig else []),
+                                                           f"files={len(spec['files'])}"] + (["has>64K"] if nbig else []) +
+                 sorted({"writer:" + _cc_kind(spec, w) for w in range(nwriters)}),
                  sample=dict(spec, lines=total, big_lines=nbig) if nt else None)
         rec.label("lines", total)
         rec.label("lines>64K", nbig)
+        rec.label("lines>1MiB", nhuge)
 
 
 def sub_append_concurrent(rec, seed, shard, nshards, rounds=15, recs=30):
@@ -482,7 +645,8 @@ def sub_append_concurrent(rec, seed, shard, nshards, rounds=15, recs=30):
         spec = {"procs": rnd.choice([1, 2, 3, 3, 4]), "threads": rnd.choice([1, 2, 3, 4]),
                 "parent_threads": rnd.choice([0, 0, 1, 2]), "recs": rnd.randint(recs // 2, recs),
                 "files": rnd.choice([["t1.jsonl"], ["turn.jsonl"], ["t1.jsonl", "custom.jsonl"], ["x.jsonl"]]),
-                "ci": rnd.choice(["true", None]), "sseed": rnd.getrandbits(32)}
+                "ci": rnd.choice(["true", None]), "sseed": rnd.getrandbits(32), "kinds": rnd.random() < 0.5,
+                "huge": rnd.random() < 0.6}
         try:
             run_round(spec, rec)
         except Violation as v:
@@ -496,9 +660,9 @@ def sub_append_concurrent(rec, seed, shard, nshards, rounds=15, recs=30):
 
 @st.composite
 def norm_cases(draw):
-    name = draw(st.one_of(st.just("turn.jsonl"), st.sampled_from(IDENT), st.sampled_from(ALL_STREAMS)))
-    return {"name": name, "ci": draw(st.sampled_from(["true", "true", "true", "true", None, ""])),
-            "rec": draw(records(stream=name))}
+    name = draw(st.one_of(st.just("turn.jsonl"), st.sampled_from(IDENT), st.sampled_from(ALL_STREAMS),
+                          st.sampled_from(["t3_reflection.jsonl", "turn.jsonl", "health.jsonl"])))
+    return {"name": name, "ci": draw(st.sampled_from(CI_POOL)), "rec": draw(records(stream=name))}
 
 
 def check_norm(case, rec=None):
@@ -540,6 +704,10 @@ def check_norm(case, rec=None):
                  [f"vol:{k}" for k in vol] + (["changed"] if changed else [])
         if name == "turn.jsonl" and ci_on and "yielded" in r:
             labels.append("turn:yield" if r["yielded"] else "turn:non-yield")
+            if r["yielded"] and "slice_idx" in r and not r["slice_idx"]:
+                labels.append("turn:yield-slice0/None")
+        if ci_on and name in lognorm.VOLATILE and _has_nested_volatile(r):
+            labels.append("nested-volatile-names")
         nt = ci_on and name in lognorm.VOLATILE and bool(vol)
         rec.case(nontrivial=nt, dig=digest(case) if nt else None, labels=labels,
                  sample={"name": name, "in": _shorten(r, 200), "out": _shorten(out, 200)} if nt and changed else None)
@@ -555,9 +723,34 @@ def sub_normalize(rec, seed, shard, nshards, n=500):
 
 STAGE_PATHS = ["t1.jsonl", "t2.jsonl", "t3_plan.jsonl", "t3_dialogue.jsonl", "t4.jsonl", "apply.jsonl", "health.jsonl",
                "turn.jsonl", "scheduler.jsonl", "t3_reflection.jsonl", "foo.jsonl", "bar.jsonl", "sub/t1.jsonl",
-               "sub/foo.jsonl"]
+               "sub/foo.jsonl", "gel.jsonl", "t3.jsonl", "T1.jsonl"]
 _small_payload = st.dictionaries(st.sampled_from(["a", "b", "ms", "now", "msg", "é"]),
                                  st.one_of(st.integers(0, 99), st.text("xyé", max_size=30), st.floats(0, 9)), max_size=3)
+
+
+TURN_POOL = [0, 1, 2, 9, 10, 11, 99, 100, 9_999_999]     # digit boundaries: '10' < '9' as strings
+TURN_SETS = [[9, 10], [2, 10, 11], [9, 99, 100], [0, 10, 9_999_999], [1, 2, 3]]
+SLICE_SETS = [[9, 10], [2, 10], [0, 9, 10, 11], [0, 1]]
+STR_TURNS = ["-", "t-7", "10", "turn/é"]                    # core.py's default "-" and caller-chosen string ids
+
+
+@st.composite
+def stage_payloads(draw, path):
+    """A small staged payload; turn-like streams also get the turn-level volatile fields, and now and then a
+    payload is much larger than its neighbours (limits then fall BETWEEN record sizes)."""
+    d = dict(draw(_small_payload))
+    if os.path.basename(path) not in ("t1.jsonl", "t2.jsonl", "t4.jsonl", "apply.jsonl") and draw(st.integers(0, 2)) == 0:
+        if draw(st.booleans()):
+            d["durations_ms"] = draw(st.dictionaries(st.sampled_from(["t2", "t1", "total"]), st.floats(0, 99),
+                                                     max_size=3))
+        y = draw(st.sampled_from([True, True, False, None, "absent"]))
+        if y != "absent":
+            d["yielded"] = y
+        if draw(st.booleans()):
+            d["slice_idx"] = draw(st.sampled_from([0, 1, 3, None]))
+    if draw(st.integers(0, 7)) == 0:
+        d["blob"] = draw(st.sampled_from(["x", "é"])) * draw(st.sampled_from([150, 400, 1200]))
+    return d
 
 
 def _tag(payload, i):
@@ -568,14 +761,21 @@ def _tag(payload, i):
 
 @st.composite
 def sort_cases(draw):
-    n = draw(st.integers(0, 12))
+    n = draw(st.integers(0, 14))
     paths = draw(st.lists(st.sampled_from(STAGE_PATHS), min_size=1, max_size=5, unique=True))
+    # small pools per case so that ties on (turn, stage, slice) stay frequent although the values are spread
+    wide = draw(st.booleans())
+    turns = draw(st.sampled_from(TURN_SETS)) if wide else [0, 1, 2]
+    slices = draw(st.sampled_from(SLICE_SETS)) if wide else [0, 1, 2]
+    seqs = [0, 1, 2, 3] + (draw(st.lists(st.sampled_from([9, 10, 11, 100]), max_size=2)) if wide else [])
+    str_turn = draw(st.sampled_from(STR_TURNS)) if draw(st.integers(0, 7)) == 0 else None
     items = []
     for i in range(n):
-        items.append({"path": draw(st.sampled_from(paths)), "turn": draw(st.integers(0, 2)),
-                      "slice": draw(st.integers(0, 2)),
-                      "seq": draw(st.one_of(st.none(), st.none(), st.integers(0, 3))),
-                      "payload": _tag(draw(_small_payload), i)})
+        path = draw(st.sampled_from(paths))
+        items.append({"path": path, "turn": str_turn if str_turn is not None else draw(st.sampled_from(turns)),
+                      "slice": draw(st.sampled_from(slices)),
+                      "seq": draw(st.one_of(st.none(), st.none(), st.sampled_from(seqs))),
+                      "payload": _tag(draw(stage_payloads(path)), i)})
     return {"ci": draw(st.sampled_from(["true", None])), "items": items}
 
 
@@ -590,7 +790,14 @@ def check_sort(case, rec=None):
             keys = []
             for it in items:
                 if it["seq"] is None:
-                    k = IOL.default_key_for(file_path=it["path"], turn_id=it["turn"], slice_idx=it["slice"])
+                    try:
+                        k = IOL.default_key_for(file_path=it["path"], turn_id=it["turn"], slice_idx=it["slice"])
+                    except (TypeError, ValueError) as e:
+                        if not isinstance(it["turn"], str):
+                            raise
+                        raise Violation(f"no staging key for the string turn id {it['turn']!r} (the driver passes "
+                                        f"ctx.turn_id through, `int | str`): {type(e).__name__}: {e}", case,
+                                        "driver-str-turn-id")
                     if k.stage_ord != stmodel.stage_ord(it["path"]):
                         raise Violation(f"stage ordinal of {it['path']} is {k.stage_ord}, documented "
                                         f"{stmodel.stage_ord(it['path'])}", case, "stage-ord")
@@ -648,12 +855,33 @@ def check_sort(case, rec=None):
             groups[g] = groups.get(g, 0) + 1
         tie = any(v > 1 for v in groups.values())
         nt = len(items) >= 3 and tie
+        tv = {it["turn"] for it in items}
+        sv = {it["slice"] for it in items}
         rec.case(nontrivial=nt, dig=digest(case) if nt else None,
-                 labels=[f"n={min(len(items), 9) // 3 * 3}+"] + (["key-tie"] if tie else []) +
+                 labels=[f"n={min(len(items), 12) // 3 * 3}+"] + (["key-tie"] if tie else []) +
                         (["custom-seq"] if any(it["seq"] is not None for it in items) else []) +
+                        (["str-turn"] if any(isinstance(t, str) for t in tv) else []) +
+                        (["turn-digit-boundary"] if _digit_boundary(tv) else []) +
+                        (["slice-digit-boundary"] if _digit_boundary(sv) else []) +
+                        (["seq>=10-in-tie"] if _seq_boundary(items, seqs) else []) +
+                        (["turn-fields"] if any("yielded" in it["payload"] or "durations_ms" in it["payload"]
+                                                for it in items) else []) +
                         (["unsorted-arrival"] if got != list(range(len(items))) else []),
                  sample={"arrival": [(it["path"], it["turn"], it["slice"], s) for it, s in zip(items, seqs)][:8],
                          "order": got[:8]} if nt else None)
+
+
+def _digit_boundary(vals):
+    """True when the numeric order of the values differs from the order of their decimal spellings."""
+    ints = sorted(v for v in vals if isinstance(v, int))
+    return [str(v) for v in ints] != sorted(str(v) for v in ints)
+
+
+def _seq_boundary(items, seqs):
+    groups = {}
+    for it, s in zip(items, seqs):
+        groups.setdefault((it["turn"], stmodel.stage_ord(it["path"]), it["slice"]), set()).add(s)
+    return any(_digit_boundary(g) for g in groups.values())
 
 
 def sub_stager_sort(rec, seed, shard, nshards, n=250):
@@ -662,32 +890,39 @@ def sub_stager_sort(rec, seed, shard, nshards, n=250):
 
 # ---- protocol (mirror of parallel.py:_run_agents_parallel_batch lines staging each record) --------------------
 
-def _ladder(ests, extra=()):
+def _ladder(ests, extra=(), cuts=()):
     if not ests:
         return [1, 1 << 25]
     total, mx, mn = sum(ests), max(ests), min(ests)
     cand = [1, mn - 1, mn, mx - 1, mx, mx + mn, total // 2, total - 1, total, 1 << 25]
     cand += list(extra)
+    for c in cuts:  # exact fill levels: the estimates of the first k records in flush order, +-1
+        k = c % len(ests) + 1
+        cand += [sum(ests[:k]) - 1, sum(ests[:k]), sum(ests[:k]) + 1]
     return sorted({c for c in cand if c >= 1})
 
 
 @st.composite
 def protocol_cases(draw):
-    n = draw(st.integers(1, 10))
+    n = draw(st.integers(1, 12))
     paths = draw(st.lists(st.sampled_from(STAGE_PATHS), min_size=1, max_size=4, unique=True))
     monotone = draw(st.integers(0, 2)) < 2
+    wide = draw(st.integers(0, 2)) == 0
+    turns = draw(st.sampled_from(TURN_SETS))[:2] if wide else [0, 1]
+    slices = draw(st.sampled_from(SLICE_SETS)) if wide else [0, 1, 2]
     arr = []
     for i in range(n):
-        arr.append([draw(st.sampled_from(paths)), draw(st.integers(0, 1)), draw(st.integers(0, 2))])
+        arr.append([draw(st.sampled_from(paths)), draw(st.sampled_from(turns)), draw(st.sampled_from(slices))])
     if monotone:  # per file: sort the drawn (turn, slice) keys in place -> never decreasing per file
         for p in paths:
             idx = [i for i in range(n) if arr[i][0] == p]
             ks = sorted((arr[i][1], arr[i][2]) for i in idx)
             for i, k in zip(idx, ks):
                 arr[i][1], arr[i][2] = k
-    payloads = [_tag(draw(_small_payload), i) for i in range(n)]
+    payloads = [_tag(draw(stage_payloads(arr[i][0])), i) for i in range(n)]
     extra = draw(st.lists(st.integers(1, 200), max_size=2))
-    return {"ci": draw(st.sampled_from(["true", None])), "arrivals": arr, "payloads": payloads, "limits": extra}
+    return {"ci": draw(st.sampled_from(["true", None])), "arrivals": arr, "payloads": payloads, "limits": extra,
+            "cuts": draw(st.lists(st.integers(0, 11), max_size=2))}
 
 
 def run_protocol(arrivals, payloads, limit, spy=None):
@@ -740,7 +975,7 @@ def check_protocol(case, rec=None):
         base_tree = read_tree(logs)
     if sorted(est) != list(range(n)):
         raise Violation(f"unbounded stager flushed ids {sorted(est)} for {n} staged records", case, "stager-loss")
-    for limit in _ladder([est[i] for i in range(n)], case["limits"]):
+    for limit in _ladder([est[i] for i in range(n)], case["limits"], case.get("cuts", ())):
         with sandbox(case["ci"]) as logs:
             chunks, escaped = run_protocol(arrivals, payloads, limit)
             tree = read_tree(logs)
@@ -792,9 +1027,14 @@ def check_protocol(case, rec=None):
     if rec is not None:
         nfiles = len({a[0] for a in arrivals})
         nt = nfiles >= 2 and flushed_ok >= 1
+        ests = [est[i] for i in range(n)]
         rec.case(nontrivial=nt, dig=digest(case) if nt else None,
                  labels=sorted(set(labels)) + ["monotone" if mono else "arbitrary-arrival", f"files={nfiles}"] +
-                        (["backpressure-flush"] if flushed_ok else []),
+                        (["backpressure-flush"] if flushed_ok else []) +
+                        (["sizes-differ>4x"] if min(ests) * 4 < max(ests) else []) +
+                        (["turn-digit-boundary"] if _digit_boundary({a[1] for a in arrivals}) else []) +
+                        (["slice-digit-boundary"] if _digit_boundary({a[2] for a in arrivals}) else []) +
+                        (["n>=10"] if n >= 10 else []),
                  sample={"arrivals": arrivals[:6], "estimates": [est[i] for i in range(n)][:6],
                          "limits_with_flush": flushed_ok} if nt else None)
 
@@ -813,17 +1053,29 @@ def driver_cases(draw):
     if draw(st.booleans()):
         slices = [slices[0]] * na  # what the real compute phase yields: one ctx.slice_idx for the whole batch
     compute_paths = [p for p in STAGE_PATHS if os.path.basename(p) != "apply.jsonl"]
+    if draw(st.integers(0, 3)) == 0:
+        slices = [{0: 0, 1: 9, 2: 10}[x] for x in slices]  # still ascending; crosses a digit boundary
     agents = []
     k = 0
     for a in range(na):
         logs = []
         for _ in range(draw(st.integers(0, 5))):
-            logs.append([draw(st.sampled_from(compute_paths)), _tag(draw(_small_payload), k)])
+            if logs and draw(st.integers(0, 5)) == 5:
+                # the stage logged the very same line twice (same path, equal payload): two records, two lines
+                prev = logs[draw(st.integers(0, len(logs) - 1))]
+                logs.append([prev[0], dict(prev[1])])
+                continue
+            path = draw(st.sampled_from(compute_paths))
+            logs.append([path, _tag(draw(stage_payloads(path)), k)])
             k += 1
         agents.append({"id": f"A{a}", "slice": slices[a], "logs": logs,
                        "dialogue": draw(st.sampled_from(["ok", "", "é\n"]))})
-    return {"ci": draw(st.sampled_from(["true", None])), "turn": draw(st.integers(0, 50)), "agents": agents,
-            "limits": draw(st.lists(st.integers(1, 300), max_size=2))}
+    # one turn id per batch (ctx.turn_id): ints of any magnitude or a caller-chosen string (`int | str` in
+    # _clone_ctx_for_agent / _sort_turn_buffers, "-" is core.py's default)
+    turn = draw(st.one_of(st.integers(0, 50), st.sampled_from(TURN_POOL), st.sampled_from(STR_TURNS)))
+    return {"ci": draw(st.sampled_from(["true", None])), "turn": turn, "agents": agents,
+            "limits": draw(st.lists(st.integers(1, 300), max_size=2)),
+            "cuts": draw(st.lists(st.integers(0, 11), max_size=1))}
 
 
 def run_driver(case, limit, spy=None):
@@ -888,7 +1140,13 @@ def check_driver(case, rec=None):
             "cache_invalidations": 0, "ms": 0.0}, ci_on))
     with sandbox(case["ci"]) as logs:
         spy = []
-        res0 = run_driver(case, 1 << 40, spy)
+        try:
+            run_driver(case, 1 << 40, spy)
+        except (TypeError, ValueError) as e:
+            if not isinstance(case["turn"], str):
+                raise
+            raise Violation(f"batch with the string turn id {case['turn']!r} is not flushed: the driver raises "
+                            f"{type(e).__name__}: {e}", case, "driver-str-turn-id")
         base_tree = read_tree(logs)
     ests = [r.bytes_estimate for r in spy]
     nrec = sum(len(a["logs"]) for a in agents) + len(agents)
@@ -896,7 +1154,7 @@ def check_driver(case, rec=None):
         raise Violation(f"driver flushed {len(ests)} records for {nrec} staged", case, "driver-count")
     flushed = 0
     labels = []
-    for limit in _ladder(ests, case["limits"]):
+    for limit in _ladder(ests, case["limits"], case.get("cuts", ())):
         with sandbox(case["ci"]) as logs:
             spy2 = []
             try:
@@ -934,9 +1192,22 @@ def check_driver(case, rec=None):
         nt = len(agents) >= 2 and nfiles >= 2 and flushed >= 1
         rec.case(nontrivial=nt, dig=digest(case) if nt else None,
                  labels=sorted(set(labels)) + [f"agents={len(agents)}"] + (["backpressure-flush"] if flushed else []) +
-                        (["slices-differ"] if len({a["slice"] for a in agents}) > 1 else []),
+                        (["slices-differ"] if len({a["slice"] for a in agents}) > 1 else []) +
+                        (["slice-digit-boundary"] if _digit_boundary({a["slice"] for a in agents}) else []) +
+                        (["str-turn"] if isinstance(case["turn"], str) else []) +
+                        (["duplicate-record"] if _has_dup_logs(agents) else []),
                  sample={"agents": [(a["id"], a["slice"], [p for p, _ in a["logs"]]) for a in agents],
                          "estimates": ests[:8]} if nt else None)
+
+
+def _has_dup_logs(agents):
+    for a in agents:
+        seen = []
+        for p, pl in a["logs"]:
+            if (p, pl) in seen:
+                return True
+            seen.append((p, pl))
+    return False
 
 
 def sub_stager_driver(rec, seed, shard, nshards, n=100):
@@ -1042,8 +1313,26 @@ def compaction_cases(draw):
     recs = draw(st.lists(records(stream=base), max_size=6))
     if draw(st.integers(0, 7)) == 7:
         recs.insert(draw(st.integers(0, len(recs))), draw(records(stream=base, big=True)))
+    if recs and draw(st.integers(0, 2)) == 0:
+        # a log legitimately holds the same record several times (adjacent or not, same or permuted key order):
+        # a rewrite preserves every occurrence
+        for _ in range(draw(st.integers(1, 3))):
+            src = recs[draw(st.integers(0, len(recs) - 1))]
+            cp = copy.deepcopy(src)
+            if draw(st.booleans()):
+                cp = dict(reversed(list(cp.items())))
+            recs.insert(draw(st.integers(0, len(recs))), cp)
+    if draw(st.sampled_from(range(8))) == 7:
+        # many small records (a real log): [seq, tag] lines incl. repeated ones
+        k = draw(st.sampled_from([20, 60, 1100, 2100]))
+        recs = recs + [{"seq": i // 2, "agent": "A", "ms": 1.5} for i in range(k)]
+    after = draw(st.one_of(st.none(), st.tuples(st.sampled_from(["io", "unbuf", "orch", "orch_unbuf"]),
+                                                records(stream=base))))
     return {"ci": draw(st.sampled_from(["true", "true", None])), "stream": stream, "old": old, "records": recs,
-            "as_iter": draw(st.booleans())}
+            "as_iter": draw(st.booleans()), "old_via": draw(st.sampled_from(["unbuf", "io", "orch"])),
+            "after": list(after) if after else None,
+            "poison": [draw(st.sampled_from(POISON_KINDS)), draw(st.integers(0, 6))] if draw(st.integers(0, 3)) == 0
+            else None}
 
 
 def check_compaction(case, rec=None):
@@ -1055,12 +1344,30 @@ def check_compaction(case, rec=None):
     snap = copy.deepcopy(recs)
     with sandbox(case["ci"]) as logs:
         path = os.path.join(logs, stream)
+        W = _writers()
         if case["old"] is not None:
             for r in case["old"]:
-                iolog._append_jsonl_unbuffered(stream, r)
+                W[case.get("old_via", "unbuf")](stream, r)
             if not case["old"]:
                 open(path, "wb").close()
         before = read_tree(logs)
+        if case.get("poison"):
+            # a rewrite that cannot serialise one of its records fails as a whole: the old records stay
+            kind, at = case["poison"]
+            bad = copy.deepcopy(recs)
+            bad.insert(at % (len(bad) + 1), _poison_record(kind, 0))
+            try:
+                iolog.rewrite_jsonl(stream, iter(bad) if case["as_iter"] else bad)
+                raised = False
+            except (TypeError, ValueError):
+                raised = True
+            mid = read_tree(logs)
+            if raised and mid != before:
+                raise Violation(f"rewrite_jsonl raised on an unserialisable record (#{at % (len(recs) + 1)} of "
+                                f"{len(recs) + 1}) but the log dir changed: {_diff_state(mid, before)}", case,
+                                "rewrite-failed-not-atomic")
+            if not raised:
+                parse_lines(mid.get(stream, b""), case, f"rewrite with odd record {stream}")
         iolog.rewrite_jsonl(stream, iter(recs) if case["as_iter"] else recs)
         tree = read_tree(logs)
         if sorted(tree) != [stream]:
@@ -1085,6 +1392,22 @@ def check_compaction(case, rec=None):
         iolog.rewrite_jsonl(stream, got)
         if read_tree(logs) != tree:
             raise Violation("rewriting the parsed lines of a canonical file changes its bytes", case, "rewrite-fixpoint")
+        # the stream stays appendable: the next record of the same process lands after the compacted ones
+        if case.get("after"):
+            via, r_after = case["after"]
+            W[via](stream, r_after)
+            tree2 = read_tree(logs)
+            if sorted(tree2) != [stream] or not tree2[stream].startswith(data):
+                raise Violation(f"a record appended ({via}) after the rewrite did not extend the compacted file: "
+                                f"files {sorted(tree2)}, {len(tree2.get(stream, b''))} bytes (compacted {len(data)})",
+                                case, "append-after-rewrite")
+            tail = parse_lines(tree2[stream][len(data):], case, f"append after rewrite {stream}")
+            w_after = lognorm.ref_normalize(base, r_after, ci_on)
+            if len(tail) != 1 or not lognorm.strict_eq(tail[0], w_after):
+                raise Violation(f"record appended ({via}) after the rewrite: the file gained {_shorten(tail)}; "
+                                f"appended (normalised) record {_shorten(w_after)}", case, "append-after-rewrite")
+            with open(path, "wb") as f:  # back to the compacted content for the kill points below
+                f.write(data)
         # atomic: a process killed after any write-open / around any rename or unlink step leaves the complete old
         # or the complete new content
         other = list(reversed(recs)) + [{"marker": 1}]
@@ -1130,8 +1453,17 @@ def check_compaction(case, rec=None):
         nt = len(recs) >= 2 and bool(before)
         rec.case(nontrivial=nt, dig=digest(case) if nt else None,
                  labels=sorted(cls) + [f"ci={case['ci']}", "old" if before else "fresh", f"kills={min(kills, 4)}"] +
-                        (["identity-stream"] if base in IDENT else []),
+                        (["identity-stream"] if base in IDENT else []) +
+                        (["duplicate-records"] if _has_dup_records(recs) else []) +
+                        (["records>=20"] if len(recs) >= 20 else []) + (["records>=1000"] if len(recs) >= 1000 else []) +
+                        (["append-after"] if case.get("after") else []) +
+                        (["failed-rewrite"] if case.get("poison") else []),
                  sample={"stream": stream, "n": len(recs), "bytes": len(data)} if nt else None)
+
+
+def _has_dup_records(recs):
+    canon = [json.dumps(r, sort_keys=True, ensure_ascii=False) for r in recs if r]
+    return len(set(canon)) != len(canon)
 
 
 def sub_compaction(rec, seed, shard, nshards, n=100):
@@ -1144,7 +1476,24 @@ def sub_compaction(rec, seed, shard, nshards, n=100):
 # ================================================================================================
 
 BASES = ["a.jsonl", "b.jsonl", "a.b.jsonl", "é.jsonl", "turn.jsonl"]
-NOISE_SUFFIX = [".0", ".01", ".bak", ".1.gz", ".-1", ".1x", ".٣"]
+NOISE_SUFFIX = [".0", ".01", ".bak", ".1.gz", ".-1", ".1x", ".٣", ".1_0", ".+2", ".010", ". 3", ".1e1"]
+WIDE_BACKUPS = [9, 10, 10, 11, 12, 20, 100, 101]          # generation numbers with two and three digits
+
+
+@contextlib.contextmanager
+def log_dir_env(d):
+    keys = ("CLEMATIS_LOG_DIR", "CLEMATIS_LOGS_DIR")
+    saved = {k: os.environ.get(k) for k in keys}
+    os.environ["CLEMATIS_LOG_DIR"] = d
+    os.environ.pop("CLEMATIS_LOGS_DIR", None)
+    try:
+        yield
+    finally:
+        for k, v in saved.items():
+            if v is None:
+                os.environ.pop(k, None)
+            else:
+                os.environ[k] = v
 
 
 def blob(spec):
@@ -1163,11 +1512,18 @@ def rotation_cases(draw):
         serial[0] += 1
         return [serial[0], draw(st.integers(0, maxpad))]
     init = {}
+    wide = draw(st.integers(0, 2)) == 0   # histories that reach two/three-digit generation numbers
     for b in bases:
         if draw(st.integers(0, 5)) < 5:
             init[b] = None if draw(st.integers(0, 9)) == 9 else fresh()
-        for k in sorted(draw(st.sets(st.integers(1, 7), max_size=5))):
-            init[f"{b}.{k}"] = fresh()
+        if wide:
+            top = draw(st.sampled_from([8, 9, 10, 11, 12, 13]))
+            slots = set(range(1, top + 1)) - draw(st.sets(st.integers(1, 13), max_size=2))
+            slots |= draw(st.sets(st.sampled_from([19, 20, 21, 99, 100, 101, 102]), max_size=2))
+        else:
+            slots = draw(st.sets(st.integers(1, 7), max_size=5))
+        for k in sorted(slots):
+            init[f"{b}.{k}"] = fresh(12 if wide else 40)
         for sfx in draw(st.lists(st.sampled_from(NOISE_SUFFIX), max_size=2, unique=True)):
             init[b + sfx] = fresh()
     for extra in draw(st.lists(st.sampled_from(["notes.txt", ".hidden.jsonl", "c.log", "a.jsonl.1.jsonl"]), max_size=2,
@@ -1181,17 +1537,21 @@ def rotation_cases(draw):
         if kind == "append":
             b = draw(st.sampled_from(bases))
             spec = fresh(60)
-            ops.append({"op": "append", "base": b, "blob": spec})
-            model[b] = model.get(b, b"") + blob(spec)
+            # "raw": bytes written by somebody else; otherwise the engine's own writer appends a record to the
+            # live file (same process as the rotations: what a long-running engine with a cron'd rotate does)
+            via = draw(st.sampled_from(["raw", "raw", "unbuf", "io", "orch"]))
+            ops.append({"op": "append", "base": b, "blob": spec, "via": via})
+            model[b] = model.get(b, b"") + (blob(spec) if via == "raw" else _writer_line(spec))
             continue
         live = [b for b in bases if b in model]
         sizes = sorted({len(model[b]) for b in live})
         bound = [s + d for s in sizes for d in (-1, 0, 1) if s + d >= 0]
         max_bytes = draw(st.one_of(st.sampled_from([0, 1, (sizes or [1])[0]]), st.sampled_from(bound or [1]),
                                    st.sampled_from(bound or [1]), st.integers(0, 120)))
-        backups = draw(st.sampled_from([2, 1, 1, 2, 2, 3, 3, 3, 4, 6, 0, -1]))
+        backups = draw(st.sampled_from(WIDE_BACKUPS + [3, 0]) if wide else
+                       st.sampled_from([2, 1, 1, 2, 2, 3, 3, 3, 4, 6, 0, -1]))
         via = draw(st.sampled_from(["main", "main", "cli", "one"]))
-        pattern = draw(st.sampled_from(["*.jsonl", "*.jsonl", "a*.jsonl", "?.jsonl"] + bases))
+        pattern = draw(st.sampled_from(["*.jsonl", "*.jsonl", "a*.jsonl", "?.jsonl", "[ab].jsonl", "*[!b].jsonl"] + bases))
         if via == "one":
             if not live:
                 via = "main"
@@ -1206,6 +1566,15 @@ def rotation_cases(draw):
             else:
                 model, _ = rotmodel.rotate_dir(model, pattern, max_bytes, backups)
     return {"init": init, "ops": ops}
+
+
+def _writer_record(spec):
+    return {"id": spec[0], "pad": "." * spec[1]}
+
+
+def _writer_line(spec):
+    """Size estimate for the generator only (the check re-reads what the writer really produced)."""
+    return (json.dumps(_writer_record(spec)) + "\n").encode()
 
 
 def _exec_rotate(d, op):
@@ -1258,6 +1627,25 @@ def check_rotation(case, rec=None):
         labels = set()
         for step, op in enumerate(case["ops"]):
             before = dict(model)
+            if op["op"] == "append" and op.get("via", "raw") != "raw":
+                b = op["base"]
+                with log_dir_env(d):
+                    _writers()[op["via"]](b, _writer_record(op["blob"]))
+                got = read_tree(d)
+                old = model.get(b, b"")
+                new = got.get(b, b"")
+                tail = parse_lines(new[len(old):], case, f"step {step} append to {b}") if new.startswith(old) else None
+                if tail is None or len(tail) != 1 or not lognorm.strict_eq(tail[0], _writer_record(op["blob"])):
+                    raise Violation(f"step {step}: record appended ({op['via']}) to the live file {b} after "
+                                    f"{eff} rotation(s) did not extend it by one line: {_diff_state(got, dict(model, **{b: new}))}"
+                                    f"; live file {len(old)} -> {len(new)} bytes, new lines {_shorten(tail)}", case,
+                                    "append-after-rotation")
+                model[b] = new
+                if got != model:
+                    raise Violation(f"step {step}: appending to {b} changed other files: {_diff_state(got, model)}",
+                                    case, "append-after-rotation")
+                labels.add("writer-append" + ("-after-rotation" if eff else ""))
+                continue
             if op["op"] == "append":
                 with open(os.path.join(d, op["base"]), "ab") as f:
                     f.write(blob(op["blob"]))
@@ -1290,6 +1678,11 @@ def check_rotation(case, rec=None):
                             labels.add("gap")
                         if any(k > op["backups"] for k in slots):
                             labels.add("extras-beyond-N")
+                        moved = [k for k in slots if k < op["backups"]]
+                        if _digit_boundary(set(moved) | {k + 1 for k in moved}):
+                            labels.add("moves-across-digit-boundary")
+                        if op["backups"] >= 10:
+                            labels.add("backups>=10" if op["backups"] < 100 else "backups>=100")
                     if any(len(before[b]) == op["max_bytes"] for b in rot):
                         labels.add("size==max")
                 else:
@@ -1442,7 +1835,7 @@ def check_crash_case(case, rec=None):
 
 def gen_crash_case(rnd, errors):
     base = rnd.choice(BASES)
-    N = rnd.choice([1, 2, 2, 3, 3, 4, 5])
+    N = rnd.choice([1, 2, 2, 3, 3, 4, 5, 10, 11])
     serial = 0
     files = {}
     serial += 1
